@@ -1,6 +1,8 @@
 // Package c20: outlier ejection never removes more than the allowed share of
-// nodes (engine E3: bubble with fake time; the recycler / retryer workers and
-// their time.AfterFunc timers are real and run inside the bubble).
+// nodes (discrete-event simulation: virtual clock, the recycler / retryer task
+// queues are consumed by the harness with the workers' own loop bodies, their
+// time.AfterFunc timers live in the simulator's timer queue and same-instant
+// timers fire in a seeded order).
 package c20
 
 import (
@@ -9,13 +11,11 @@ import (
 	"fmt"
 	"sort"
 	"sync"
-	"time"
 
 	sentinel "github.com/alibaba/sentinel-golang/api"
 	"github.com/alibaba/sentinel-golang/core/base"
 	cb "github.com/alibaba/sentinel-golang/core/circuitbreaker"
 	"github.com/alibaba/sentinel-golang/core/outlier"
-	"github.com/alibaba/sentinel-golang/util"
 
 	"verif/harness"
 	"verif/model"
@@ -34,26 +34,23 @@ type Cfg struct {
 	Healthy  []bool            `json:"healthy"` // per node: does the active recovery check succeed
 }
 
-// Quiesce is installed by the E3 worker (synctest.Wait).
-var Quiesce func()
-
 type P struct{}
 
 func init() { harness.Register(P{}) }
 
 func (P) ID() string     { return "C20" }
-func (P) Engine() string { return "E3" }
+func (P) Engine() string { return "E1" }
 
 func (P) Describe() harness.Description {
 	return harness.Description{
-		MustHit: []string{"node_filtered", "filter_capped_by_percentage", "node_half_open", "node_recycled", "node_kept_after_success", "active_recovery_check_ran"},
+		MustHit: []string{"same_instant_timers_ordered_by_seed", "node_filtered", "filter_capped_by_percentage", "node_half_open", "node_recycled", "node_kept_after_success", "active_recovery_check_ran"},
 		Level:   "exploration",
 		Rule: "case = (1-12 nodes, MaxEjectionPercent k/100 or k/1000 incl. 0 and 1, active recovery on (scripted RecoveryCheckFunc) or off, recycle interval 1-5 s, recovery interval, per-node breaker rule (error count / error ratio, retry timeout 200-3000 ms, probe number 0-1); 20-120 ops: request (choose a node, duration, success or failure), advance fake time). Chain = default slots + the real outlier slots; the recycler / retryer workers, their channels and timers live inside the bubble; after every step the driver waits for quiescence. " +
 			"Oracle at every request: FilterNodes has no duplicates and is a subset of the nodes the per-node reference breaker rejects now; |FilterNodes| <= floor(k*n/den) in integer arithmetic with n = known nodes; HalfOpenNodes == nodes in passive half-open probing (none with active recovery); a node that completed a request successfully since it was scheduled for recycling is still known after the recycle interval, and no unknown node appears. " +
 			"non-trivial = nodes were filtered with the cap binding and a node was recycled or kept by a success; distinct = hash(config, ops)",
 		Assumptions: []string{"MaxEjectionPercent is k/100 or k/1000 and the bound is floor(k*n/den) in integers", "removal of a node that never recovered is permitted, not demanded (the statement only protects nodes that completed successfully)", "known nodes are read through the overlay-only accessor outlier.VerifNodeBreakers"},
-		Real:        []string{"core/outlier (slot, stat slot, rule manager, recycler and retryer incl. worker goroutines and time.AfterFunc timers)", "core/circuitbreaker breakers per node", "api.Entry/TraceCallee/TraceError/Exit"},
-		Stub:        []string{"time (testing/synctest fake clock; util.RealClock reads it)", "goroutine scheduling inside the bubble (quiescence after every step)", "RecoveryCheckFunc (scripted health of each node instead of a TCP dial)"},
+		Real:        []string{"core/outlier (slot, stat slot, rule manager, recycler and retryer: task queues, the loop body of the two workers, timer callbacks)", "core/circuitbreaker breakers per node", "api.Entry/TraceCallee/TraceError/Exit"},
+		Stub:        []string{"time.AfterFunc / time.Now of core/outlier (simulator timer queue on the virtual clock; timers due at the same instant fire in a seeded order)", "the two worker goroutines (the harness consumes the task channels with the generated VerifDrain functions = the workers' own loop bodies, in a seeded order)", "iteration order of the node map in checkAllNodes (seeded permutation of the sorted keys)", "util.Clock (virtual clock)", "RecoveryCheckFunc (scripted health of each node instead of a TCP dial)"},
 	}
 }
 
@@ -106,7 +103,6 @@ type node struct {
 	checked   bool   // only the active recovery check succeeded since then (may be kept or recycled: both timers can be due at the same instant)
 }
 
-func nowMs() uint64 { return uint64(time.Now().UnixNano() / 1e6) }
 
 func (P) Exec(c *harness.Case) *harness.Outcome {
 	o := harness.NewOutcome()
@@ -115,15 +111,40 @@ func (P) Exec(c *harness.Case) *harness.Outcome {
 		o.Infra = err.Error()
 		return o
 	}
-	if Quiesce == nil {
-		o.Infra = "C20 needs the E3 worker (testing/synctest bubble)"
-		return o
-	}
 	if cfg.Nodes <= 0 || cfg.PctDen <= 0 || cfg.PctNum < 0 || cfg.PctNum > cfg.PctDen || cfg.Rule.StatMs == 0 || cfg.Rule.RetryMs == 0 || len(cfg.Healthy) < cfg.Nodes || len(c.Callers) == 0 {
 		return o
 	}
-	harness.Reset(0, harness.DefaultGeometry())
-	util.SetClock(util.NewRealClock()) // inside the bubble the real clock is the fake clock
+	env := harness.Reset(1700000000000*1e6, harness.DefaultGeometry())
+	clk := env.Clock
+	nowMs := func() uint64 { return clk.NowMs() }
+	// the order in which the slot visits the nodes of a resource (a Go map in the implementation) decides WHICH
+	// outliers are filtered when the cap bites: drawn from the case's PRNG (overlay: verifMapOrder)
+	mr := sim.NewRng(c.Seed, 0xc20a, uint64(c.Run))
+	tq := &sim.TimerQ{Clk: clk, Pick: func(n int) int { return mr.Intn(n) }}
+	sim.Timers = tq
+	defer func() { sim.Timers = nil }()
+	// drain: let the two workers consume what the slot queued (seeded order of the two; until both are empty)
+	drain := func() {
+		for {
+			n := 0
+			if mr.Intn(2) == 0 {
+				n = outlier.VerifDrainRecycler() + outlier.VerifDrainRetryer()
+			} else {
+				n = outlier.VerifDrainRetryer() + outlier.VerifDrainRecycler()
+			}
+			if n == 0 {
+				return
+			}
+		}
+	}
+	outlier.VerifMapOrder = func(keys []string) []string {
+		for i := len(keys) - 1; i > 0; i-- {
+			j := mr.Intn(i + 1)
+			keys[i], keys[j] = keys[j], keys[i]
+		}
+		return keys
+	}
+	defer func() { outlier.VerifMapOrder = nil }()
 	var mu sync.Mutex
 	nodes := map[string]*node{}
 	checks := 0
@@ -155,24 +176,16 @@ func (P) Exec(c *harness.Case) *harness.Outcome {
 		}
 		return ok
 	}
-	started := false
 	if !harness.Call(o, "C20.panic", 0, func() {
-		outlier.VerifStartWorkers()
-		started = true
+		outlier.VerifResetWorkers()
 		if _, err := outlier.LoadRules([]*outlier.Rule{rule}); err != nil {
 			o.Fail("C20.load-error", 0, "%v", err)
 		}
 	}) || o.Failed() {
-		if started {
-			outlier.VerifStopWorkers()
-			Quiesce()
-		}
 		return o
 	}
 	defer func() {
-		Quiesce() // let the workers drain what is queued while the rule still exists
-		outlier.VerifStopWorkers()
-		Quiesce()
+		harness.Call(o, "C20.panic", 0, drain) // let the workers consume what is queued while the rule still exists
 		_ = outlier.ClearRules()
 	}()
 	sc := sentinel.BuildDefaultSlotChain()
@@ -189,7 +202,8 @@ func (P) Exec(c *harness.Case) *harness.Outcome {
 			return false
 		}
 		now := nowMs()
-		for a, n := range nodes {
+		for _, a := range sortedKeys(nodes) {
+			n := nodes[a]
 			if n.pending && now >= n.recycleAt {
 				n.pending = false
 				if n.recovered {
@@ -207,13 +221,14 @@ func (P) Exec(c *harness.Case) *harness.Outcome {
 				n.checked = false
 			}
 		}
-		for a := range impl {
+		for _, a := range sortedKeys(impl) {
 			if nodes[a] == nil {
 				o.Fail("C20.unknown-node", step, "node %s is known to the outlier module but never completed a request (or was recycled and not seen since)", a)
 				return false
 			}
 		}
-		for a, n := range nodes {
+		for _, a := range sortedKeys(nodes) {
+			n := nodes[a]
 			if _, ok := impl[a]; !ok {
 				if n.recovered || (!n.pending && n.hadOK) {
 					o.Fail("C20.node-vanished", step, "node %s completed requests successfully and is not awaiting recycling after a failure, yet it is no longer known (pending=%v recovered=%v)", a, n.pending, n.recovered)
@@ -229,10 +244,7 @@ func (P) Exec(c *harness.Case) *harness.Outcome {
 	for step, op := range c.Callers[0] {
 		switch op.K {
 		case "sleep":
-			harness.Call(o, "C20.panic", step, func() {
-				time.Sleep(time.Duration(op.N) * time.Millisecond)
-				Quiesce()
-			})
+			harness.Call(o, "C20.panic", step, func() { tq.AdvanceMs(op.N, drain) })
 			if o.Failed() || !processTimers(step) {
 				return o
 			}
@@ -321,7 +333,7 @@ func (P) Exec(c *harness.Case) *harness.Outcome {
 				o.Probe("node_half_open")
 			}
 			// the workers schedule their timers now
-			harness.Call(o, "C20.panic", step, func() { Quiesce() })
+			harness.Call(o, "C20.panic", step, drain)
 			// pick a node like a load balancer would: the requested one unless it is filtered
 			target := addr(op.R)
 			for k := 0; k < cfg.Nodes && contains(filter, target); k++ {
@@ -330,8 +342,7 @@ func (P) Exec(c *harness.Case) *harness.Outcome {
 			harness.Call(o, "C20.panic", step, func() {
 				sentinel.TraceCallee(e, target)
 				if op.N > 0 {
-					time.Sleep(time.Duration(op.N) * time.Millisecond)
-					Quiesce()
+					tq.AdvanceMs(op.N, drain)
 				}
 			})
 			// timers that fired while the request was running are applied before its completion
@@ -343,7 +354,7 @@ func (P) Exec(c *harness.Case) *harness.Outcome {
 					sentinel.TraceError(e, errors.New("node failure"))
 				}
 				e.Exit()
-				Quiesce()
+				drain()
 			})
 			if o.Failed() {
 				return o
@@ -375,6 +386,12 @@ func (P) Exec(c *harness.Case) *harness.Outcome {
 		o.ProbeN("active_recovery_check_ran", 0)
 	}
 	o.SimMs += nowMs() - start
+	if tq.Fired > 0 {
+		o.Faults["timer_fired"] += tq.Fired
+	}
+	if tq.Ties > 0 {
+		o.ProbeN("same_instant_timers_ordered_by_seed", tq.Ties)
+	}
 	o.Nontrivial = sawFilter && sawCap && sawRecycleOrKeep
 	return o
 }
@@ -386,4 +403,13 @@ func contains(l []string, s string) bool {
 		}
 	}
 	return false
+}
+
+func sortedKeys[V any](m map[string]V) []string {
+	l := make([]string, 0, len(m))
+	for k := range m {
+		l = append(l, k)
+	}
+	sort.Strings(l)
+	return l
 }
